@@ -183,4 +183,34 @@ theorem C16_transcription_pinned :
     Generated.skel_watch_getWatchedStrings = 2729183200917924902 := by decide
 -- END transcription pins
 
+/-! ## One window of the watch loop -/
+
+open TemplVerif.Watch in
+/-- The program is rebuilt at the end of a window exactly when SOME event of the window needs a recompilation - wherever
+    in the window it came; an edit classified as needing none never cancels an earlier one that does. -/
+theorem C16_window_rebuild (evs : List Ev) : (window evs).1 = evs.any (·.goUpdated) ∧ (window evs).2 = evs.any (·.textUpdated) := by
+  have h : ∀ (acc : Bool × Bool), (evs.foldl (fun acc e => (acc.1 || e.goUpdated, acc.2 || e.textUpdated)) acc) =
+      (acc.1 || evs.any (·.goUpdated), acc.2 || evs.any (·.textUpdated)) := by
+    induction evs with
+    | nil => intro acc; simp
+    | cons e es ih => intro acc; simp only [List.foldl_cons, List.any_cons, ih, Bool.or_assoc]
+  have h0 := h (false, false)
+  simp only [Bool.false_or] at h0
+  unfold window
+  rw [h0]
+  exact ⟨rfl, rfl⟩
+
+open TemplVerif.Watch in
+/-- Why the flags accumulate: if the last event decided alone, a Go-changing edit followed by a text-only one in the same
+    window would leave the old program running. -/
+theorem C16_window_last_counterexample :
+    (windowLast [⟨true, true⟩, ⟨false, true⟩]).1 = false ∧ (window [⟨true, true⟩, ⟨false, true⟩]).1 = true := by decide
+
+/-- T1: in cmd.go the flags are only ever assigned `flag || event's flag` or reset to false, and the rebuild is decided
+    by the Go flag. -/
+theorem C16_window_pinned :
+    Generated.windowGoUpdatedAssigns = [103, 111, 85, 112, 100, 97, 116, 101, 100, 32, 124, 124, 32, 103, 101, 46, 71, 111, 85, 112, 100, 97, 116, 101, 100, 32, 59, 59, 32, 102, 97, 108, 115, 101] ∧
+    Generated.windowTextUpdatedAssigns = [116, 101, 120, 116, 85, 112, 100, 97, 116, 101, 100, 32, 124, 124, 32, 103, 101, 46, 84, 101, 120, 116, 85, 112, 100, 97, 116, 101, 100, 32, 59, 59, 32, 102, 97, 108, 115, 101] ∧
+    Generated.windowRebuildCond = [99, 109, 100, 46, 65, 114, 103, 115, 46, 67, 111, 109, 109, 97, 110, 100, 32, 33, 61, 32, 34, 34, 32, 38, 38, 32, 103, 111, 85, 112, 100, 97, 116, 101, 100] := by decide
+
 end TemplVerif.Props.C16
